@@ -172,6 +172,13 @@ def part_chain_sampler(ctx, pq, quick, rng):
         lk = [L.loss(0, "4/5"), L.loss(0, "1/sqrt2")]
         postsels = postsels_all[d]
         res = sampler_laws(ctx, d, gates, inputs, lk, postsels, depth)
+        # TLC's integers are 32-bit: an instance whose exact path weights do not fit is reported by TLC as an overflow ERROR (never a silent wrap);
+        # it is then re-run with fewer photons, and the reduction is recorded
+        while "Overflow when computing" in res.out and max(sum(v) for v in inputs) > 1:
+            top = max(sum(v) for v in inputs)
+            inputs = [v for v in inputs if sum(v) < top]
+            ctx.notes.setdefault("sampler_overflow_reductions", []).append({"d": d, "depth": depth, "photons_reduced_below": top})
+            res = sampler_laws(ctx, d, gates, inputs, lk, postsels, depth)
         if res.violated:
             ctx.report("spec:PqSampler:" + ",".join(map(str, res.violated)), "the sampler algorithm of the specification does not have the Born law (see TLC trace)",
                        "\n".join(l for l in res.out.splitlines() if not l.startswith('<<"LAW"'))[-3000:])
@@ -382,7 +389,11 @@ def part_reference_state(ctx, pq, quick, rng):
                     for br in rn.branches:
                         o = tuple(int(x) for x in br.outcome)
                         gotn[o] = gotn.get(o, 0.0) + float(br.frequency)
-                    compare_laws(ctx, key + ":shots-none", f"PassiveSimulator shots=None weights with the {dname} detector on modes {sub} after {name} on {inp}", gotn, 1.0, exp, replay, tol=1e-8)
+                    # shots=None takes its weights from the probability table, which is wrong for lossy states with a complex transmission matrix
+                    # (known finding of C05): those cases get their own key
+                    cplx_t = any(any(x[2] != 0 or x[3] != 0 for row in (gates[st["gate"] - 1] if "gate" in st else losses[st["loss"] - 1])["M"] for x in row) for st in steps)
+                    wkey = (f"C02:weights:Passive:lossy:{'complex' if cplx_t else 'real'}-transmission:shots-none:{dname}" if lossy else key + ":shots-none")
+                    compare_laws(ctx, wkey, f"PassiveSimulator shots=None weights with the {dname} detector on modes {sub} after {name} on {inp}", gotn, 1.0, exp, replay, tol=1e-8)
                 except NotImplementedCalculation:
                     pass
                 except Exception as e:  # noqa
